@@ -4,6 +4,7 @@ package main
 
 import (
 	"fmt"
+	"go/types"
 	"os"
 	"sort"
 	"strings"
@@ -829,7 +830,7 @@ func checkScopeWiring(cs *clauseSet, l *Ledger) {
 	}
 	// Interpret: one fresh child of the globals
 	news := cs.Interp.G.Events("newenv")
-	if len(news) != 1 || !strings.HasSuffix(news[0].Args[0], "i.globals") {
+	if len(news) != 1 || !strings.HasSuffix(news[0].Args[0], "i."+interpreterGlobalsField(cs.p)) {
 		l.Violate(rule, "Interpret#scope", firstPos(news), "the program scope is not one fresh child of the globals: "+strings.Join(eventStrings(news), "; "))
 	} else {
 		bad := ""
@@ -942,4 +943,40 @@ func sortedStrings(m map[string]bool) []string {
 	}
 	sort.Strings(out)
 	return out
+}
+
+// interpreterGlobalsField: the name of the field in which the interpreter keeps its global environment — the one field of
+// type *environment.Environment that Interpreter has (directly, or through a struct it embeds by value); "globals" if that
+// cannot be told.
+func interpreterGlobalsField(p *Prog) string {
+	pk := p.TPkg("interpreter")
+	if pk == nil {
+		return "globals"
+	}
+	o := pk.Types.Scope().Lookup("Interpreter")
+	if o == nil {
+		return "globals"
+	}
+	var found []string
+	var walk func(t types.Type, depth int)
+	walk = func(t types.Type, depth int) {
+		st, ok := t.Underlying().(*types.Struct)
+		if !ok || depth > 2 {
+			return
+		}
+		for i := 0; i < st.NumFields(); i++ {
+			f := st.Field(i)
+			if pt, ok := f.Type().(*types.Pointer); ok && typeStr(pt.Elem()) == "environment.Environment" {
+				found = append(found, f.Name())
+			}
+			if promotedThrough(t, i) {
+				walk(f.Type(), depth+1)
+			}
+		}
+	}
+	walk(o.Type(), 0)
+	if len(found) == 1 {
+		return found[0]
+	}
+	return "globals"
 }
